@@ -20,6 +20,8 @@ type Params struct {
 	// alphabet to the first n kinds (0 = all five).
 	FreeClientRx bool
 	RxKinds      int
+	// RxSet, when set, is the receive-time alphabet itself (kinds 0..5, see Program).
+	RxSet []int
 }
 
 // Program returns the explorable program: each step is either a request
@@ -61,9 +63,12 @@ func Program(p Params, onState func(s *Sys, x *mc.X)) func(x *mc.X) {
 		if p.FreeClientRx {
 			cost = free
 		}
-		nrx := 5
+		nrx := 6
 		if p.RxKinds > 0 {
 			nrx = p.RxKinds
+		}
+		if p.RxSet != nil {
+			nrx = len(p.RxSet)
 		}
 		for step := 0; step < p.Steps; step++ {
 			if onState != nil {
@@ -122,7 +127,9 @@ func Program(p Params, onState func(s *Sys, x *mc.X)) func(x *mc.X) {
 			kind := x.Choose(6, "kind")
 			rxk := x.ChooseCost(nrx, "rx", cost)
 			nowk := x.Choose(4, "now")
-			if p.RxKinds == 3 {
+			if p.RxSet != nil {
+				rxk = p.RxSet[rxk]
+			} else if p.RxKinds == 3 {
 				rxk = []int{0, 3, 2}[rxk]
 			}
 			var rx time.Time
@@ -142,6 +149,17 @@ func Program(p Params, onState func(s *Sys, x *mc.X)) func(x *mc.X) {
 				rx = s.MaxRx.Add(1)
 			case 3:
 				rx = s.MaxRx.Add(-time.Second)
+			case 5: // received just before the last activity of the store's least recently
+				// active client, handled (default clock reading) after it: a packet that
+				// waited in the socket buffer
+				rx = s.MaxRx.Add(-2 * time.Second)
+				if q, ok := s.OldestActivity(); ok {
+					rx = ntp.TimeFromTime64(q, T0)
+					if ntp.Time64FromTime(rx).Before(q) {
+						rx = rx.Add(1)
+					}
+					rx = rx.Add(-1)
+				}
 			case 4: // equal to the other client's newest receive timestamp
 				if n, ok := newest[other]; ok {
 					rx = ntp.TimeFromTime64(n, T0)
